@@ -152,12 +152,20 @@ from Bio.Seq import Seq
 from moclo.record import CircularRecord
 names = [c.__module__.split(".")[-1] + "." + c.__name__ for c in classes]
 records = json.loads(%(records)r)
+shared, alive = {}, []
 def answers(cls):
     # the primed histories ask about the records in the opposite order: an answer must not depend on which records
-    # the same class was asked about before either
+    # the same class was asked about before either.  They also hand ONE record object per plasmid to all the classes
+    # and keep every wrapper alive until the end (state keyed by the identity or equality of records / wrappers)
     out = []
     for s in (records if %(mode)r == "fresh" else records[::-1]):
-        e = cls(CircularRecord(Seq(s), id="r"))
+        if %(mode)r == "fresh":
+            e = cls(CircularRecord(Seq(s), id="r"))
+        else:
+            if s not in shared:
+                shared[s] = CircularRecord(Seq(s), id="r")
+            e = cls(shared[s])
+            alive.append(e)
         try:
             v = e.is_valid()
         except Exception as ex:
@@ -327,7 +335,7 @@ def bounded(ctx):
                 rule="histories over the %d concrete kit classes: for every class X a fresh interpreter validating X first and "
                      "then every other class in declaration order, plus one history in reverse order, so that every ordered "
                      "pair (A before B) occurs in some history; every answer (verdict, overhangs, target) compared with "
-                     "the same query issued first in its own fresh interpreter; "
+                     "the same query issued first in its own fresh interpreter (the histories share one record object per plasmid between all classes and keep every wrapper alive); "
                      "records = %d seeded instances of the %d distinct structures (random rotation) and plasmids holding two units of a "
                      "structure (several possible match starts); plus a subclass "
                      "created at run time.  non-trivial = (class, record) accepted in the fresh interpreter" % (
